@@ -154,7 +154,44 @@ def run(ctx):
         early += [A.unparse(c.func) for s_ in rp.node.body if s_.lineno < st.lineno for c in A.calls(s_) if A.unparse(c.func).split(".")[0] in (pl, "self")]
         first = st in rp.node.body and not early and len(A.assignments(rp.node, rpv)) == 1
     ctx.check("R2", rp, first, "revert-point-first", "the revert point is taken before the first mutation")
-    ctx.floor("R2", 9)
+    # every refusing return of an apply() leaves no net effect behind: what was done before the refusal is undone on that path
+    from ..core.cfg import cfg_of
+    n_fail = 0
+    for op in OPS:
+        ap = P.cls(MOD, op).methods["apply"]
+        pl_ = ap.params()[1]
+        ea_, _ = effects(ap, plan=pl_)
+        g = cfg_of(ap.node)
+        for r in A.returns(ap.node):
+            if r.value is None or (isinstance(r.value, ast.Constant) and r.value.value in (None, True)):
+                continue
+            rn = g.node_of(r)
+            if any(k == "plan+" and (g.node_of(n) is rn or rn in g.reach([g.node_of(n)])) for k, a, n in ea_):
+                continue  # the op is in the plan on this path: a rollback reverts it like any applied op
+            n_fail += 1
+            tested = set()
+            for p_ in A.parents(r):
+                if isinstance(p_, ast.If):
+                    tested |= {n.id for n in ast.walk(p_.test) if isinstance(n, ast.Name)}
+            on_path = []
+            for k, a, n in ea_:
+                if k not in INVERSE:
+                    continue
+                cn = g.node_of(n)
+                if cn is None or not (cn is rn or rn in g.reach([cn])):
+                    continue
+                st_ = A.stmt_of(n)
+                if isinstance(st_, ast.Assign) and any(isinstance(t, ast.Name) and t.id in tested for t in st_.targets):
+                    continue  # the attempt whose refusal defines this path: it did not happen
+                on_path.append((k, a))
+            cnt = Counter(on_path)
+            for (k, a), c_ in sorted(cnt.items()):
+                ctx.check("R2", ap, cnt.get((INVERSE[k], a), 0) == c_, f"refusal-leaves:{k}{a}",
+                          f"{op}.apply: `{k}{a}` before the refusing `{A.unparse(r)}` is undone on that path",
+                          f"{op}.apply performs `{k}{a}` on the way to the refusing `{A.unparse(r)}` (line {r.lineno}) and never undoes it there: a refused op leaves "
+                          f"the planner state changed although nothing was added to the plan, and no later rollback can restore it", node=r)
+    ctx.require(n_fail >= 1, "no refusing return found in any op's apply()")
+    ctx.floor("R2", 10)
 
     # ---- R3 backtrack ---------------------------------------------------------------------
     bt = P.func(MOD, "plan_state.backtrack")
@@ -235,6 +272,17 @@ def run(ctx):
                           f"{opn}.apply does not treat the conflicts of a forced insertion as a refusal",
                           f"{opn}.apply inserts with force=self.force but treats any reported conflict as failure (`if {A.unparse(tests[0].test)}`): with force=True the package was inserted anyway and the failure path leaves it slotted next to the old one (latent: nothing constructs {opn}(force=True) today)", node=tests[0])
     ctx.floor("R4", 11)
+
+    # ---- R5 references that several ops can hold at once are counted ------------------------------------------------
+    psi = P.func(MOD, "plan_state.__init__")
+    COUNTED = {"forced_restrictions": "the same restriction can be hard-referenced by several add_atoms rounds; reverting one must keep the others' reference",
+               "blockers_refcnt": "several packages can carry the same blocker; the limiter may only go when the last one releases it"}
+    for attr, why in COUNTED.items():
+        vals = [v for t, v, _ in A.assignments(psi.node) if A.self_attr(t) == attr]
+        ok = bool(vals) and all(isinstance(v, ast.Call) and (dotted(v.func) or "").split(".")[-1] == "RefCountingSet" for v in vals)
+        ctx.check("R5", psi, ok, f"counted:{attr}", f"plan_state.{attr} counts references (RefCountingSet): {why}",
+                  f"plan_state.{attr} is built as `{A.unparse(vals[0]) if vals else '?'}`, not a reference-counting set, while ops add / remove it once per op: {why}")
+    ctx.floor("R5", 2)
 
 
 MUTANTS = [
